@@ -47,8 +47,14 @@ func (e *Env) noteLoop(fr *Frame, li *loopInfo, modified map[string]bool) {
 }
 
 // invVars builds the variable environment for invariants / use-at sites.
-func (e *Env) invVars(fr *Frame) map[string]Value {
+func (e *Env) invVars(fr *Frame) map[string]Value { return e.invVarsAt(fr, nil) }
+
+// invVarsAt: the local names visible at block `at` of fr.fn (nil: no preference). When two
+// locals share a name (shadowing in different scopes), the one whose definition point
+// dominates `at` most closely wins.
+func (e *Env) invVarsAt(fr *Frame, at *ssa.BasicBlock) map[string]Value {
 	vars := map[string]Value{}
+	best := map[string]*ssa.BasicBlock{}
 	// outermost first so that inner frames shadow
 	var chain []*Frame
 	for f := fr; f != nil; f = f.parent {
@@ -92,7 +98,18 @@ func (e *Env) invVars(fr *Frame) map[string]Value {
 					continue
 				}
 				if v, ok := f.regs[d.X]; ok {
-					if _, taken := vars[id.Name]; !taken {
+					_, taken := vars[id.Name]
+					if f == fr && at != nil && b.Dominates(at) {
+						// prefer the definition that dominates `at` most closely
+						if pb, had := best[id.Name]; !taken || !had || pb.Dominates(b) {
+							if _, isParam := paramNames(f.fn)[id.Name]; !isParam || had {
+								vars[id.Name] = v
+								best[id.Name] = b
+							}
+						}
+						continue
+					}
+					if !taken {
 						vars[id.Name] = v
 					}
 				}
@@ -114,8 +131,22 @@ func (e *Env) invVars(fr *Frame) map[string]Value {
 	return vars
 }
 
+func paramNames(fn *ssa.Function) map[string]bool {
+	m := map[string]bool{}
+	for _, p := range fn.Params {
+		m[p.Name()] = true
+	}
+	return m
+}
+
 func (e *Env) evalInv(fr *Frame, c *Clause, st *State) string {
-	vars := e.invVars(fr)
+	var at *ssa.BasicBlock
+	for h, li := range findLoops(fr.fn, fr.loopPrefix) {
+		if li.key == c.Loop {
+			at = h
+		}
+	}
+	vars := e.invVarsAt(fr, at)
 	// the loop's own phis take precedence for unqualified names
 	if m, ok := fr.loopPhis[c.Loop]; ok {
 		for n, v := range m {
@@ -242,7 +273,9 @@ func (e *Env) assumeLemmaQuantified(pkg *types.Package, name string) {
 		}
 		var pp []string
 		for _, p := range ps {
-			pp = append(pp, patternTerms(p)...)
+			for _, q := range patternTerms(p) {
+				pp = append(pp, e.hoistItes(q))
+			}
 		}
 		if len(pp) > 0 {
 			pats = append(pats, ":pattern ("+strings.Join(pp, " ")+")")
@@ -395,14 +428,27 @@ func (e *Env) verifyFunc(it *Item) {
 			e.assume(ctx.boolTerm(c.Expr))
 		}
 	}
+	usedAx := map[string]bool{}
 	for _, ax := range w.axioms {
-		if ax.Pkg == it.Pkg {
-			actx := &SpecCtx{e: e, st: entry, vars: map[string]Value{}, pkg: pkg}
+		// axioms of the function's own package always; axioms of other packages when named
+		// in a `uses` clause (by bare or package-qualified name)
+		named := false
+		for _, l := range it.Uses {
+			if l == ax.Name || strings.HasSuffix(l, "."+ax.Name) {
+				named = true
+				usedAx[l] = true
+			}
+		}
+		if ax.Pkg == it.Pkg || named {
+			actx := &SpecCtx{e: e, st: entry, vars: map[string]Value{}, pkg: w.typesPkg(ax.Pkg)}
 			e.assume(actx.boolTerm(ax.Body))
 			e.trust("axiom " + ax.Pkg + "." + ax.Name)
 		}
 	}
 	for _, l := range it.Uses {
+		if usedAx[l] {
+			continue
+		}
 		e.assumeLemmaQuantified(pkg, l)
 	}
 	e.cover("pre", tTrue)
